@@ -10,7 +10,7 @@ for l in logs:
         m = re.match(r"^(\S+)/patch.diff: caught_by=(\[.*\])", line)
         if m:
             name, got = m.group(1), eval(m.group(2))
-            if (name.startswith("R5-") or name.startswith("R6-")) and name in caught:
+            if name[:3] in ("R5-", "R6-", "R7-") and name in caught:
                 # round 5 was run check by check while the checks were being extended: results accumulate
                 caught[name] = sorted(set(caught[name]) | set(got))
             else:
@@ -27,7 +27,7 @@ for name, (prop, needs) in NEEDS.items():
         "origin": "revert of a fix: commit in /repo" if name.startswith("F") else ("written by the harness author from the list in DESIGN.md 3.8 (no demonstration test; the check output is the demonstration)" if name.startswith("M") else "written by an independent sub-agent that saw only the property text and a scratch worktree"),
         "needs_to_manifest": needs,
         "confirmed": "with the change applied the 73 existing tests pass; the demonstration (demo.rs, a cargo integration test) fails with the change and passes without it" if not name.startswith("F") else "the pinned tree b95655e (which contains this behaviour) passes the 73 tests; the witness is in known_findings.json",
-        "ran": "cargo test --workspace --offline (73 passed) with the patch; cargo test --offline --test demo (fails with, passes without); " + ("tools/matrix.py <patch> <the property it was written for and its neighbours> (quick tier, both profiles); other checks were not run against it" if (name.startswith("R5-") or name.startswith("R6-")) else "tools/matrix.py <patch> C01..C20 (quick tier)"),
+        "ran": "cargo test --workspace --offline (73 passed) with the patch; cargo test --offline --test demo (fails with, passes without); " + ("tools/matrix.py <patch> <the property it was written for and its neighbours> (quick tier, both profiles); other checks were not run against it" if name[:3] in ("R5-", "R6-", "R7-") else "tools/matrix.py <patch> C01..C20 (quick tier)"),
         "caught_by_quick": primary,
         "also_caught_by": [x for x in (c or []) if x not in primary],
         "matrix_known": c is not None,
